@@ -11,7 +11,7 @@ from ..result import Result
 ID = "C06"
 RTOL = 1e-10
 TOLERANCES = {"operator on constant (relative to sum |row|*|c0|)": RTOL, "TVD of constant": "bitwise 0",
-              "steady solve": "max(1e-8, 1e-11*cond(step matrix)); cases with cond >= 1e9 discarded", "source-only solve": 1e-12}
+              "steady solve": "max(1e-8, 1e-11*cond(step matrix)) * step number; cases with cond >= 1e7 discarded", "source-only solve": 1e-12}
 RULE = ("Generated: grid (9 classes, N 1..4 / 1..3 in 3-D, all spacings, r0=0/offset) x D>=0 with zeros/contrast x "
         "arbitrary u, direction field w x constant c0 = +-10^[-6,6] x all 16 limiters; solver part: uniform field, "
         "boundary values matching it (Dirichlet c0 with face-wise scaled coefficients / no-flux / periodic), discretely "
@@ -167,8 +167,9 @@ def check(case):
         cond = float(np.linalg.cond(T_))
     except np.linalg.LinAlgError:
         cond = float('inf')
-    if not cond < 1e9:
+    if not cond < 1e7:
         res.discarded = True
+        res.discard_reason = 'ill-conditioned'
         ok = False
     # rounding of a solve is amplified by cond (and accumulates over the steps); real defects seen are >= 1e-4
     tol_steady = max(1e-8, 1e-11 * cond)
@@ -181,7 +182,7 @@ def check(case):
             ok = False
             break
         e = np.abs(v - c0).max() / (abs(c0) if c0 else 1.0)
-        if not res.expect_small("steady-uniform", float(e), tol_steady, f"steady-uniform:{P['scheme']}:{name}",
+        if not res.expect_small("steady-uniform", float(e), tol_steady * (k + 1), f"steady-uniform:{P['scheme']}:{name}",
                                 f"uniform field in divergence-free flow not steady ({P['scheme']}, {name}, "
                                 f"periodic {case['periodic_axes']}, step {k + 1})"):
             break
